@@ -129,6 +129,8 @@ TStream == { T("list", "EQ", TRUE, 1, 0, 0), T("list", "EQ", FALSE, 0, 0, 0),
 \* client-side wait times out while the write stream lives on
 TExpire == { T("put", "EQ", FALSE, 1, 10, 0), T("put", "EQ", TRUE, 1, 10, 0), T("del", "EQ", FALSE, 1, 8, 0),
              T("put", "EQ", TRUE, 2, 10, 0), T("delrange", "EQ", FALSE, 0, 16, 0) }
+\* the same with reads (a read is one RPC: its timeout cancels it, nothing arrives late)
+TExpireRW == TExpire \cup { T("get", "EQ", FALSE, 1, 0, 0), T("get", "FLOOR", FALSE, 0, 0, 1) }
 TExpireSmall == { T("put", "EQ", FALSE, 1, 10, 0), T("del", "EQ", FALSE, 1, 8, 0), T("delrange", "EQ", FALSE, 0, 16, 0) }
 TMixed == { T("put", "EQ", FALSE, 1, 10, 0), T("del", "EQ", TRUE, 2, 8, 0), T("delrange", "EQ", FALSE, 0, 16, 0),
             T("get", "EQ", FALSE, 1, 0, 0), T("get", "FLOOR", FALSE, 0, 0, 1), T("get", "CEILING", FALSE, 0, 0, 2),
